@@ -786,14 +786,6 @@ func (srv *server) removeSessionLocked(clientID string) (err error) {
 		}
 		delete(srv.queueStore, clientID)
 	}
-	sessionErr = srv.sessionStore.Remove(clientID)
-	if sessionErr != nil {
-		zaplog.Error("fail to remove session",
-			zap.String("client_id", clientID),
-			zap.Error(sessionErr))
-
-		errs = append(errs, "fail to remove session: "+sessionErr.Error())
-	}
 	subErr = srv.subscriptionsDB.UnsubscribeAll(clientID)
 	if subErr != nil {
 		zaplog.Error("fail to remove subscription",
@@ -801,6 +793,15 @@ func (srv *server) removeSessionLocked(clientID string) (err error) {
 			zap.Error(subErr))
 
 		errs = append(errs, "fail to remove subscription: "+subErr.Error())
+	}
+	// the session record goes last: a crash in between leaves a session that is removed again, never orphaned subscriptions
+	sessionErr = srv.sessionStore.Remove(clientID)
+	if sessionErr != nil {
+		zaplog.Error("fail to remove session",
+			zap.String("client_id", clientID),
+			zap.Error(sessionErr))
+
+		errs = append(errs, "fail to remove session: "+sessionErr.Error())
 	}
 
 	if errs != nil {
